@@ -3,4 +3,4 @@ Require Extraction.
 Require Import ExtrOcamlBasic.
 Require Import Base DictIO.
 Extraction Language OCaml.
-Extraction "../ocaml/gen/c07_model.ml" x_load x_name x_run x_words_at x_add_words x_crash_ok x_crash_state x_wasm fs_empty fs_write fs_read file_dict_name.
+Extraction "../ocaml/gen/c07_model.ml" x_load x_name x_run x_words_at x_add_words x_crash_ok x_crash_state x_seed_state x_merge_eq x_wasm fs_empty fs_write fs_read file_dict_name.
